@@ -95,34 +95,43 @@ def run(ctx):
     defs = single_defs(f.node)
     rets = [n for n in g.stmt_nodes() if n.kind == "stmt" and isinstance(n.ast, ast.Return)]
     ctx.require(rets, "R10.3: _suggest has no return")
-    rv = {norm(r.ast.value) for r in rets}
-    ctx.check(len(rv) == 1 and all(isinstance(r.ast.value, ast.Name) for r in rets), "R10.3", f.short, "single-returned-local",
-              message=f"_suggest returns {sorted(rv)}", how="one local returned on all paths")
+    prm = f.params()
+    ctx.require(len(prm) >= 3, "R10.3: _suggest(self, name, distribution) signature changed")
+    pname, dname = prm[1], prm[2]
+    # the reuse test splits the function into the "already suggested" side and the "new value" side
+    reuse_tests = [t for t in g.stmt_nodes() if t.kind == "test" and isinstance(t.expr, ast.Compare) and isinstance(t.expr.ops[0], (ast.In, ast.NotIn))
+                   and norm(t.expr.left) == pname and norm(t.expr.comparators[0]).endswith(".distributions")]
+    ctx.require(reuse_tests, "R10.3: reuse test vanished")
+    t = reuse_tests[0]
+    neg = isinstance(t.expr.ops[0], ast.NotIn)
+    new_edge = [m for k, m in t.succ if k == ("t" if neg else "f")]
+    reuse_edge = [m for k, m in t.succ if k == ("f" if neg else "t")]
+    new_side, reuse_side = g.reachable(new_edge), g.reachable(reuse_edge)
+    new_rets = [r for r in rets if r in new_side]
+    ctx.require(new_rets, "R10.3: no return on the new-value side")
+    rv = {norm(r.ast.value) for r in new_rets}
+    ctx.check(len(rv) == 1 and all(isinstance(r.ast.value, ast.Name) for r in new_rets), "R10.3", f.short, "single-returned-local",
+              message=f"_suggest returns {sorted(rv)} for a newly chosen value", how="one local returned on all new-value paths")
     var = next(iter(rv))
     stores = [(n, c) for n in g.stmt_nodes() for c in n.calls() if isinstance(c.func, ast.Attribute) and c.func.attr == "set_trial_param"]
     ctx.require(len(stores) == 1, "R10.3: expected exactly one set_trial_param call in _suggest")
     sn, sc = stores[0]
     args = [norm(resolve(a, defs)) for a in sc.args]
-    want = ["self._trial_id", "name", f"distribution.to_internal_repr({var})", "distribution"]
+    want = ["self._trial_id", pname, f"{dname}.to_internal_repr({var})", dname]
     ctx.check(args == want, "R10.3", f.short, "stored-is-returned-value",
               message=f"set_trial_param is called with {args}; the stored value is not to_internal_repr of the returned local `{var}`",
-              how="set_trial_param(self._trial_id, name, distribution.to_internal_repr(param_value), distribution)", where=where(f, sc))
-    ctx.check(norm(sc.func.value) in ("storage", "self.storage") and norm(resolve(sc.func.value, defs)) == "self.storage", "R10.3", f.short, "stored-in-trial-storage",
+              how=f"set_trial_param(self._trial_id, {pname}, {dname}.to_internal_repr({var}), {dname})", where=where(f, sc))
+    ctx.check(norm(resolve(sc.func.value, defs)) == "self.storage", "R10.3", f.short, "stored-in-trial-storage",
               message="value stored in a different storage object", how="self.storage")
-    cache_p = [n for n in g.stmt_nodes() if n.kind == "stmt" and isinstance(n.ast, ast.Assign) and norm(n.ast.targets[0]) == "self._cached_frozen_trial.params[name]"]
-    cache_d = [n for n in g.stmt_nodes() if n.kind == "stmt" and isinstance(n.ast, ast.Assign) and norm(n.ast.targets[0]) == "self._cached_frozen_trial.distributions[name]"]
+    cache_p = [n for n in g.stmt_nodes() if n.kind == "stmt" and isinstance(n.ast, ast.Assign) and norm(n.ast.targets[0]) == f"self._cached_frozen_trial.params[{pname}]"]
+    cache_d = [n for n in g.stmt_nodes() if n.kind == "stmt" and isinstance(n.ast, ast.Assign) and norm(n.ast.targets[0]) == f"self._cached_frozen_trial.distributions[{pname}]"]
     ctx.check(bool(cache_p) and all(norm(n.ast.value) == var for n in cache_p), "R10.3", f.short, "cached-is-returned-value",
-              message="the trial-local cache is not updated with the returned value", how=f"params[name] = {var}")
-    ctx.check(bool(cache_d) and all(norm(n.ast.value) == "distribution" for n in cache_d), "R10.3", f.short, "cached-distribution", message="cache distribution not updated", how="distributions[name] = distribution")
+              message="the trial-local cache is not updated with the returned value", how=f"params[{pname}] = {var}")
+    ctx.check(bool(cache_d) and all(norm(n.ast.value) == dname for n in cache_d), "R10.3", f.short, "cached-distribution", message="cache distribution not updated", how=f"distributions[{pname}] = {dname}")
     ctx.check(all(g.dominated_by(n, [sn]) for n in cache_p + cache_d), "R10.3", f.short, "store-before-cache",
               message="the cache is updated before (or without) the value being stored: a failed store leaves a value the study never saw",
               how="set_trial_param dominates the cache updates")
     # on the sampling (non-reuse) side the return is dominated by the store
-    reuse_tests = [t for t in g.stmt_nodes() if t.kind == "test" and isinstance(t.expr, ast.Compare) and isinstance(t.expr.ops[0], (ast.In, ast.NotIn)) and norm(t.expr.comparators[0]).endswith(".distributions")]
-    ctx.require(reuse_tests, "R10.3: reuse test vanished")
-    t = reuse_tests[0]
-    neg = isinstance(t.expr.ops[0], ast.NotIn)
-    new_edge = [m for k, m in t.succ if k == ("t" if neg else "f")]
     r = g.reachable(new_edge, avoid_nodes=[sn], edge_ok=NORMAL)
     ctx.check(g.exit not in r, "R10.3", f.short, "store-before-return",
               message="_suggest can return a newly chosen value to the objective without having stored it", how="on the not-yet-suggested edge every path to return passes set_trial_param",
@@ -132,11 +141,26 @@ def run(ctx):
     re_as = [n for n in after if n is not sn and n.kind == "stmt" and isinstance(n.ast, (ast.Assign, ast.AugAssign))
              and any(isinstance(x, ast.Name) and x.id == var for tg in (n.ast.targets if isinstance(n.ast, ast.Assign) else [n.ast.target]) for x in [tg])]
     ctx.check(not re_as, "R10.3", f.short, "no-reassignment-after-store", message=f"`{var}` is re-assigned after being stored", how="no assignment reachable from the store")
-    # reuse branch returns the stored value
-    reuse_edge = [m for k, m in t.succ if k == ("f" if neg else "t")]
-    ra = [n for n in g.reachable(reuse_edge) - g.reachable(new_edge) if n.kind == "stmt" and isinstance(n.ast, ast.Assign) and norm(n.ast.targets[0]) == var]
-    ctx.check(bool(ra) and all(norm(n.ast.value).endswith(".params[name]") for n in ra), "R10.3", f.short, "reuse-returns-stored-value",
-              message="on the reuse branch the value is not taken from trial.params[name]", how="param_value = trial.params[name]")
+    # reuse side: every return hands back the value already stored for the name - either directly
+    # (`return trial.params[name]`) or through a local whose reuse-side assignments are that expression
+    def _stored(e):
+        return isinstance(e, ast.Subscript) and norm(e.slice) == pname and norm(e.value).endswith(".params")
+    ok = True
+    n_reuse_rets = 0
+    for rn in rets:
+        if rn not in reuse_side:
+            continue
+        n_reuse_rets += 1
+        v = rn.ast.value
+        if v is not None and _stored(v) and rn not in new_side:
+            continue
+        if isinstance(v, ast.Name):
+            ra = [n for n in reuse_side - new_side if n.kind == "stmt" and isinstance(n.ast, ast.Assign) and norm(n.ast.targets[0]) == v.id]
+            if ra and all(_stored(n.ast.value) for n in ra):
+                continue
+        ok = False
+    ctx.check(ok and n_reuse_rets > 0, "R10.3", f.short, "reuse-returns-stored-value",
+              message=f"on the reuse branch the value is not taken from <trial>.params[{pname}]", how=f"return / assign <trial>.params[{pname}]")
     # front-ends
     fe = {"suggest_float": ("FloatDistribution", {"0": "low", "1": "high", "log": "log", "step": "step"}),
           "suggest_int": ("IntDistribution", {"low": "low", "high": "high", "log": "log", "step": "step"}),
